@@ -73,6 +73,26 @@ META = {
 }
 
 
+def sig_symlink_to_empty_dir(w):
+    """the implementation died with NotADirectoryError and the case has a `clean: True` target that is a symbolic link
+    whose destination is a directory of the pre-state (findings/pending/C14-symlink-to-empty-dir.md)"""
+    impl = w.get('impl') or {}
+    case = w.get('case') or {}
+    if 'NotADirectoryError' not in str(impl.get('outcome')):
+        return False
+    dirs0 = set(impl.get('dirs0') or [])
+    link_dest = {l[0]: l[1] for l in (impl.get('links0') or [])}
+    for t in case.get('tasks', []):
+        if t.get('kind') == 'targets':
+            for p in t.get('targets', []):
+                if p in link_dest and link_dest[p] in dirs0:
+                    return True
+    return False
+
+
+SIGNATURES = {'symlink-to-empty-dir': sig_symlink_to_empty_dir}
+
+
 # ----------------------------------------------------------------------------------------------
 # generator
 
@@ -162,12 +182,20 @@ def gen_targets(rng, tasks):
                 elif r < 0.5:
                     eff = ['mk', 'new%d_%d' % (i, k)]
                 typ = rng.choice(['aware', 'plain', 'cmd'])
-                form = 'def'
+                form = 'str' if typ == 'cmd' else 'def'
                 if typ == 'plain' and rng.random() < 0.6:
                     form = rng.choice(cleanlib.PLAIN_FORMS)
                 elif typ == 'aware' and rng.random() < 0.5:
                     form = rng.choice(cleanlib.AWARE_FORMS)
-                acts.append({'type': typ, 'eff': eff, 'form': form})
+                elif typ == 'cmd' and rng.random() < 0.4:
+                    form = rng.choice(cleanlib.CMD_FORMS)
+                if form == 'param' and cleanlib.subs_of(tasks, i):
+                    form = 'def'                   # task params on a group task: not a shape of this property
+                fail = None
+                if rng.random() < 0.12:
+                    # a clean action that fails (returns False / raises / exit status 1): reported, `clean` goes on
+                    fail = 'exit1' if typ == 'cmd' else rng.choice(['false', 'raise'])
+                acts.append({'type': typ, 'eff': eff, 'form': form, 'fail': fail})
             t['actions'] = acts
         if rng.random() < (0.92 if t['kind'] == 'targets' else 0.15):
             pool = ['o%d' % i, 'o%d/f' % i, 'o%d/g.txt' % i, 'o%d/sub' % i, 'o%d/sub/h' % i, 'top%d' % i,
@@ -178,6 +206,8 @@ def gen_targets(rng, tasks):
             if 'shared' in tg:
                 shared_taken = True
             t['targets'] = tg
+            if rng.random() < 0.25:
+                t['pathform'] = rng.choice(['path', 'pure'])      # targets written as pathlib objects
     state = {}
     for i, t in enumerate(tasks):
         for p in t['targets']:
@@ -197,6 +227,8 @@ def gen_targets(rng, tasks):
         if t['kind'] == 'targets' and rng.random() < 0.3:
             for _ in range(rng.randint(1, 2)):
                 kind = rng.choice(['out-file', 'out-file', 'in-file', 'out-dir', 'in-dir', 'broken'])
+                if rng.random() < 0.06:
+                    kind = 'empty-dir'      # open known finding symlink-to-empty-dir: os.rmdir on the link kills `clean`
                 link = rng.choice(['ln%d' % i, 'o%d/lnk' % i, 'lnk%d.d/l' % i])
                 if any(l[0] == link for l in links) or link in state:
                     continue
@@ -214,6 +246,9 @@ def gen_targets(rng, tasks):
                 elif kind == 'in-dir':
                     dest = 'keepdir%d' % i
                     state[dest + '/keep'] = 'file'
+                elif kind == 'empty-dir':
+                    dest = 'emptydir%d' % i
+                    state[dest] = 'dir'
                 else:
                     dest = 'nowhere%d' % i
                 t['targets'].append(link)
@@ -407,14 +442,23 @@ def shrink_candidates(case):
                 del c['tasks'][i]['actions'][j]
                 yield c
         for j, a in enumerate(acts):
-            if a.get('form', 'def') != 'def':
+            if a.get('form', 'def') not in ('def', 'str'):
                 c = json.loads(json.dumps(case))
-                c['tasks'][i]['actions'][j]['form'] = 'def'
+                c['tasks'][i]['actions'][j]['form'] = 'str' if a['type'] == 'cmd' else 'def'
+                yield c
+            if a.get('fail'):
+                c = json.loads(json.dumps(case))
+                c['tasks'][i]['actions'][j]['fail'] = None
                 yield c
             if a.get('eff'):
                 c = json.loads(json.dumps(case))
                 c['tasks'][i]['actions'][j]['eff'] = None
                 yield c
+    for i, tk in enumerate(tasks):
+        if tk.get('pathform', 'str') != 'str':
+            c = json.loads(json.dumps(case))
+            c['tasks'][i]['pathform'] = 'str'
+            yield c
     for j in range(len(case['pos'])):
         c = dict(case)
         c['pos'] = case['pos'][:j] + case['pos'][j + 1:]
@@ -477,13 +521,14 @@ def describe(case):
         if t['setup']:
             s += ' setup=' + ','.join(case['tasks'][d]['label'] for d in t['setup'])
         if t['kind'] == 'actions':
-            s += ' clean=[' + ', '.join(a['type'] + ('(%s)' % a['form'] if a.get('form', 'def') != 'def' else '')
+            s += ' clean=[' + ', '.join(a['type'] + ('(%s)' % a['form'] if a.get('form', 'def') not in ('def', 'str') else '')
+                                        + ('!%s' % a['fail'] if a.get('fail') else '')
                                         + (':%s %s' % tuple(a['eff']) if a.get('eff') else '')
                                         for a in t.get('actions', [])) + ']'
         else:
             s += ' clean=' + {'act': '[plain]', 'actdry': '[aware]'}.get(t['kind'], t['kind'])
         if t['targets']:
-            s += ' targets=' + ','.join(t['targets'])
+            s += ' targets=' + ('%s:' % t['pathform'] if t.get('pathform', 'str') != 'str' else '') + ','.join(t['targets'])
         ts.append(s)
     argv = ['clean'] + [o for f, o in (('cleandep', '--clean-dep'), ('cleanall', '--clean-all'),
                                        ('dryrun', '--dry-run'), ('forget', '--forget')) if case.get(f)] + case['pos']
@@ -527,14 +572,18 @@ def process_batch(batch):
         if any(t['setup'] for t in tasks):
             st.count('has-setup-edge')
         for l in case.get('links', []):
-            st.count('symlink-target:%s' % ('outside' if '../store' in l[1] or l[1].startswith('../../') else 'inside/broken'))
+            st.count('symlink-target:%s' % ('to-empty-dir' if 'emptydir' in l[1] else 'outside' if '../store' in l[1]
+                                            or l[1].startswith('../../') else 'inside/broken'))
         for t in tasks:
             acts = t.get('actions', []) if t['kind'] == 'actions' else []
             if acts:
                 st.count('clean-list-len:%d' % len(acts))
                 for a in acts:
-                    if a['type'] != 'cmd':
-                        st.count('py-action:%s/%s' % (a['type'], a.get('form', 'def')))
+                    st.count('action:%s/%s' % (a['type'], a.get('form', 'def')))
+                    if a.get('fail'):
+                        st.count('action-fails:%s' % a['fail'])
+            if t['targets'] and t.get('pathform', 'str') != 'str':
+                st.count('targets-as:%s' % t['pathform'])
                 types = [a['type'] for a in acts]
                 if 'aware' in types and any(x != 'aware' for x in types[types.index('aware') + 1:]):
                     st.count('clean-list:aware-before-non-aware')
@@ -554,7 +603,11 @@ def process_batch(batch):
             if any(v >= 2 for v in cnt.values()):
                 st.count('shared-dependency-cleaned')
         if failed:
-            small = shrink(case) if len(st.violations) < 2 else case
+            known = sig_symlink_to_empty_dir({'case': case, 'impl': obs})
+            if known:
+                st.count('known-finding-shape:symlink-to-empty-dir')
+            # an instance of an open known finding is reported as found (the corpus has the minimal form)
+            small = shrink(case) if (len(st.violations) < 2 and not known) else case
             c2, o2, a2, d2, f2 = evaluate([small])[0]
             if not f2:
                 c2, o2, a2, d2, f2 = case, obs, ans, diffs, failed
@@ -595,7 +648,7 @@ def make_cases(ctx):
             d[f] = not c.get(f)
             extra.append(d)
     cases += extra
-    n_random = (1500 if ctx.tier == 'quick' else 28000) * ctx.boost
+    n_random = (1200 if ctx.tier == 'quick' else 24000) * ctx.boost
     for k in range(n_random):
         cases.append(gen_case(ctx.sub_rng('case', getattr(ctx, 'seed_shift', 0), k)))
     if ctx.tier == 'thorough' or ctx.boost > 1:
